@@ -45,8 +45,8 @@ StmtsUses(ss, i) == IF i > Len(ss) THEN {} ELSE StmtUses(ss[i]) \cup StmtsUses(s
 DriversAccept(E) ==
   LET D == Summary(E)
       ctxs == 1..Len(E.ctxs)
-      wr(c) == StmtsTargets(E.ctxs[c].body, 1, {"next", "value", "push"})
-      us(c) == StmtsUses(E.ctxs[c].body, 1) \cap DOMAIN D.kind
+      wr(c) == StmtsTargets(E.ctxs[c].body \o OnReset(E.ctxs[c]), 1, {"next", "value", "push"})
+      us(c) == StmtsUses(E.ctxs[c].body \o OnReset(E.ctxs[c]), 1) \cap DOMAIN D.kind
       multi == {n \in DOMAIN D.kind : Cardinality({c \in ctxs : n \in wr(c)}) > 1}
       inwr == {n \in DOMAIN D.kind : D.kind[n] = "port_in" /\ \E c \in ctxs : n \in wr(c)}
       varshared == {n \in DOMAIN D.kind : D.kind[n] = "variable" /\ Cardinality({c \in ctxs : n \in us(c)}) > 1}
